@@ -194,9 +194,19 @@ def _identity(ctx: Ctx, c: Collector) -> None:
                 bt = typer.unopt(typer._type_of(sub[1], env))
                 if bt[0] == "dict" and is_cls(bt[1], GROUP):
                     uses.append((fi, e, T.show(sub)))
+            elif sub[0] == "call" and sub[1][0] == "attr" and sub[1][2] in ("get", "setdefault", "pop") and sub[2]:
+                bt = typer.unopt(typer._type_of(sub[1][1], env))
+                if (bt[0] == "dict" and is_cls(bt[1], GROUP)) or is_cls(typer._type_of(sub[2][0], env), GROUP):
+                    uses.append((fi, e, T.show(sub)))
     c.info["group_equality_uses"] = len(uses)
     if not uses:
-        raise AnalysisError("R9: no equality-based use of SimGroup values found (group_path's lookup was confirmed by hand): typing went vacuous")
+        # no lookup could be typed (the table of ancestors may be built in a form the typer does not follow): the obligation is on
+        # the class -- finding the common group of two simulators compares groups, whatever the spelling of the lookup
+        if structural:
+            c.bad("R9", GROUP, "equality of SimGroup", f"SimGroup {why}: finding the common group of two simulators confuses sibling groups", ci.node and f"{ci.module.relpath}:{ci.node.lineno}")
+        else:
+            c.ok("R9", GROUP, "equality of SimGroup", "SimGroup compares by identity (no equality-based lookup could be typed on this tree)", f"{ci.module.relpath}:{ci.node.lineno}")
+        return
     for fi, e, txt in uses:
         if structural:
             c.bad("R9", fi.qualname, f"equality-based lookup {txt[:60]}", f"SimGroup {why}, and this lookup compares groups by equality: sibling groups are confused", ctx.loc(fi, e))
